@@ -333,7 +333,14 @@ pub fn gen_model(rng: &mut Rng, k: &ModelKnobs) -> MModel {
         let mut seen = std::collections::BTreeSet::new();
         for _ in 0..n_tm {
             let n = rng.range(1, 2);
-            let token = pat(rng, n, k);
+            // a third of the tag tokens coincide with a dictionary word or an n-gram of the model
+            let token = if rng.chance(1, 3) && !m.dict_model.is_empty() {
+                rng.pick(&m.dict_model).word.clone()
+            } else if rng.chance(1, 3) && !m.char_ngram_model.is_empty() {
+                rng.pick(&m.char_ngram_model).ngram.clone()
+            } else {
+                pat(rng, n, k)
+            };
             if !seen.insert(token.clone()) {
                 continue;
             }
@@ -343,7 +350,9 @@ pub fn gen_model(rng: &mut Rng, k: &ModelKnobs) -> MModel {
                 let n_cand = rng.range(0, 3);
                 let mut c: Vec<String> = vec![];
                 for _ in 0..n_cand {
-                    let t = gen::gen_tag(rng);
+                    // now and then a candidate that equals the token itself (the reading of a
+                    // kana word is the word)
+                    let t = if rng.chance(1, 8) { token.clone() } else { gen::gen_tag(rng) };
                     if !c.contains(&t) {
                         c.push(t);
                     }
